@@ -178,6 +178,17 @@ def run(ctx: Ctx, env):
             for name, v in ci.assigns.items():
                 if isinstance(v, (ast.Set, ast.SetComp)) or (isinstance(v, ast.Call) and isinstance(v.func, ast.Name) and v.func.id in ("set", "frozenset")):
                     setnames.add(name)
+        # local names bound to a set inside a function count within that module as well (a name bound to a set anywhere)
+        def _is_set_expr(v) -> bool:
+            return isinstance(v, (ast.Set, ast.SetComp)) or (isinstance(v, ast.Call) and isinstance(v.func, ast.Name) and v.func.id in ("set", "frozenset")) \
+                or (isinstance(v, ast.BinOp) and isinstance(v.op, (ast.BitOr, ast.BitAnd, ast.Sub, ast.BitXor)) and (_is_set_expr(v.left) or _is_set_expr(v.right)))
+        for fn_ in ast.walk(m.tree):
+            if isinstance(fn_, (ast.FunctionDef, ast.AsyncFunctionDef)):
+                for st_ in ast.walk(fn_):
+                    if isinstance(st_, ast.Assign) and _is_set_expr(st_.value):
+                        setnames |= {t.id for t in st_.targets if isinstance(t, ast.Name)}
+                    elif isinstance(st_, ast.AnnAssign) and st_.value is not None and _is_set_expr(st_.value) and isinstance(st_.target, ast.Name):
+                        setnames.add(st_.target.id)
         n_sets += len(setnames)
         for n in ast.walk(m.tree):
             it = None
@@ -216,6 +227,7 @@ def run(ctx: Ctx, env):
                           f"{ci.name} defines {dunder}: `if not lexer` style tests in AliasRewriter can discard a supplied instance",
                           ci.module.loc(ci.methods[dunder]) if dunder in ci.methods else "")
     _check_supplied_left_as_found(ctx, env)
+    check_error_hook_reads_no_stale_state(ctx, env)
     ctx.trust("SLY 0.4 Lexer.tokenize / Parser.parse / Parser.restart as installed (shape re-verified on each run)")
 
 
@@ -370,6 +382,60 @@ def _sly_run_state() -> Dict[str, Set[str]]:
                                 attrs.add(n.attr)
         out[cls] = attrs
     return out
+
+
+def _sly_stale_parser_state() -> Set[str]:
+    """Attributes the installed SLY Parser.parse assigns on the instance only inside its main loop - not in the set-up before the
+    loop nor in restart(): at a point where the loop has not assigned them yet, they still hold what the previous parse left."""
+    spec = importlib.util.find_spec("sly")
+    base = list(spec.submodule_search_locations)[0]
+    tree = ast.parse(open(os.path.join(base, "yacc.py"), encoding="utf-8").read())
+
+    def self_stores(nodes) -> Set[str]:
+        out = set()
+        for st in nodes:
+            for n in ast.walk(st):
+                if isinstance(n, ast.Attribute) and isinstance(n.ctx, ast.Store) and isinstance(n.value, ast.Name) and n.value.id == "self":
+                    out.add(n.attr)
+        return out
+
+    for c in tree.body:
+        if isinstance(c, ast.ClassDef) and c.name == "Parser":
+            meths = {f.name: f for f in c.body if isinstance(f, ast.FunctionDef)}
+            parse = meths.get("parse")
+            if parse is None:
+                break
+            before, inside = [], []
+            for st in parse.body:
+                (inside if isinstance(st, ast.While) else before).append(st)
+            reset = self_stores(before) | (self_stores(meths["restart"].body) if "restart" in meths else set())
+            return self_stores(inside) - reset
+    raise AnalysisError("installed SLY: Parser.parse not found")
+
+
+def check_error_hook_reads_no_stale_state(ctx: Ctx, env, rule: str = "R6.error-hook-reads-no-stale-state"):
+    """The parser's error hook can run before the first reduction of a parse; an attribute SLY assigns only inside its loop
+    (`production`, ...) then still holds the value from the previous parse of the same instance."""
+    g, repo = env.grammar, env.repo
+    stale = _sly_stale_parser_state()
+    fn = g.parser_error
+    if fn is None:
+        return
+    ci = repo.classes[g.parser_class]
+    selfname = fn.args.args[0].arg if fn.args.args else "self"
+    for n in ast.walk(fn):
+        attr = None
+        if isinstance(n, ast.Attribute) and isinstance(n.ctx, ast.Load) and isinstance(n.value, ast.Name) and n.value.id == selfname:
+            attr = n.attr
+        elif isinstance(n, ast.Call) and isinstance(n.func, ast.Name) and n.func.id in ("getattr", "hasattr") and len(n.args) >= 2 and \
+                isinstance(n.args[0], ast.Name) and n.args[0].id == selfname and isinstance(n.args[1], ast.Constant):
+            attr = n.args[1].value
+        if attr in stale:
+            ctx.fail(rule, f"{ci.name}.error|{attr}", f"the error hook reads `{selfname}.{attr}`, which SLY assigns only while reducing: when the error "
+                     "comes before the first reduction it is what the previous parse on this instance left, so the exception depends on history",
+                     ci.module.loc(n), "p.parse('a eq 1') then p.parse(')')  vs  a fresh parser on ')'")
+    if not any(o.rule == rule and not o.ok for o in ctx.obligations):
+        ctx.ok(rule, f"{ci.name}.error", f"reads none of {sorted(stale)}")
 
 
 def check_no_run_state_reads(ctx: Ctx, env, rule: str = "R6.no-read-of-run-state"):
